@@ -46,7 +46,7 @@ func init() {
 			"workload = generated concurrent client programs, k goroutines each running a random sequence from the menu of exported methods the property names: " +
 			"Conn (Read, ReadMessage, ReadBatch(+With), Write, WriteMessages, WriteCompressedMessages, Seek, Offset, ReadOffset/First/Last/Offsets, ReadPartitions, Brokers, Controller, ApiVersions, the three deadline setters, SetRequiredAcks, Close), " +
 			"Batch shared by several goroutines (Read, ReadMessage, Offset, HighWaterMark, Partition, Throttle, Err, Close), Writer (WriteMessages, Stats, Close), Reader with and without group (FetchMessage, ReadMessage, CommitMessages, SetOffset, Offset, Lag, Stats, Close), " +
-			"Client methods + Transport.CloseIdleConnections, every built-in Balancer and every compression codec from 32 goroutines, and the scenario engines of C02/C03/C05/C06/C09/C15 (their own oracles are not judged here). " +
+			"Client methods + Transport.CloseIdleConnections, every built-in Balancer and every compression codec from 32 goroutines (a quarter of the codec rounds first use a writer on a failing sink and a reader on a cut stream, each closed twice the way callers with a deferred Close do), and the scenario engines of C02/C03/C05/C06/C09/C15 (their own oracles are not judged here). " +
 			"signature = (type, pair of methods observed in flight simultaneously); non-trivial = at least two calls of the program overlapped",
 		Assumptions: []string{
 			"the race detector only reports accesses that were executed without a happens-before edge in an observed execution; programs that did not overlap are counted but are not evidence",
@@ -784,6 +784,29 @@ func c10Codecs(k *core.Case) {
 				var buf bytes.Buffer
 				var out []byte
 				var err error
+				if rr.Chance(1, 4) {
+					// uses that end in an error, closed the way callers do (deferred Close plus a
+					// checked Close): a sink that fails, a stream that is cut short
+					tr.do(codec.Name()+".NewWriter(failing sink)", func() {
+						w := codec.NewWriter(&c16FailSink{left: rr.Intn(len(payload)/4 + 8)})
+						w.Write(payload)
+						w.Close()
+						w.Close()
+					})
+					if prev := rr.Intn(3); prev > 0 {
+						tr.do(codec.Name()+".NewReader(cut stream)", func() {
+							var zb bytes.Buffer
+							w := codec.NewWriter(&zb)
+							w.Write(payload)
+							w.Close()
+							z := zb.Bytes()
+							rd := codec.NewReader(bytes.NewReader(z[:len(z)*prev/3]))
+							io.Copy(io.Discard, rd)
+							rd.Close()
+							rd.Close()
+						})
+					}
+				}
 				tr.do(codec.Name()+".NewWriter", func() {
 					w := codec.NewWriter(&buf)
 					w.Write(payload)
